@@ -87,6 +87,7 @@ def _build(d):
         errs['Sheet1!I%d' % (i + 1)] = d.choice(KIND_FORMULAS)
     names = []
     if d.pick(3) == 0:
+        model = GM.workbook_safe(model)
         cand = sorted(model['inputs']) + model['order']
         for j in range(d.int(1, 2)):
             names.append({'name': 'Nm%d' % j, 'addr': d.choice(cand)})
@@ -145,6 +146,20 @@ def enumerate_cases(tier, shard=0, nshards=1):
                     i += 1
                     if i % nshards != shard:
                         continue
+                    if not names:
+                        # sheets named in capitals / differing in case only,
+                        # ranges in columns whose letters occur in the name
+                        from vf.checks.c13 import FIXED as F13
+                        yield {'model': F13[-1], 'extras': {}, 'errs': {
+                            'data!H1': '=SUM(DATA!A1:A2,A1:A2)',
+                            'DATA!T9': '=SUM(D1:D2,T1:T2,A1:A2)'},
+                            'names': [], 'history': [
+                                [h[0]] + [x.replace('Sheet1!C1', 'Report!C1')
+                                          .replace('Sheet1!B1', 'Report!B2')
+                                          .replace('Sheet1!A1', 'DATA!A1')
+                                          if isinstance(x, str) else x
+                                          for x in h[1:]] for h in hist],
+                            'ext': ext, 'precompile': pre and not hist}
                     yield {'model': base,
                            'extras': {'Sheet1!G1': ['s', u'ü "q"'],
                                       'Sheet1!G2': ['b', True],
